@@ -40,14 +40,14 @@ var typedUntypedPairs = []pair{
 	{"x = y as A<B>==z;", "x = y ==z;"}, {"x = y as A<B<C>>==z;", "x = y ==z;"}, {"x = y as A<B>>z;", "x = y >z;"}, {"x = y as A<B>>=z;", "x = y >=z;"},
 	{"x = f<<T>(x: T) => T>(g);", "x = f(g);"}, {"x = f<<T>() => void, <U>(u: U) => U>(g);", "x = f(g);"}, {"x = a?.b<T>(c);", "x = a?.b(c);"}, {"x = a?.<T>(c);", "x = a?.(c);"},
 	{"x = [f<T>, g<U>];", "x = [f, g];"}, {"x = f<T>;", "x = f;"}, {"x = (f<T>);", "x = (f);"}, {"x = f<T> || g;", "x = f || g;"}, {"x = f<T>\ny;", "x = f\ny;"},
-	{"x = a ? (b): T => c : d;", "x = a ? (b) => c : d;"}, {"x = a ? (b: T): U => c : d;", "x = a ? (b) => c : d;"}, 
+	{"x = a ? (b): T => c : d;", "x = a ? (b) => c : d;"}, {"x = a ? (b: T): U => c : d;", "x = a ? (b) => c : d;"},
 	{"x = a ? (b): c => (d) : e;", "x = a ? (b) => (d) : e;"}, {"x = a ? (b, c?: T): U<V> => d : e;", "x = a ? (b, c) => d : e;"}, {"x = a ? <T>(b: T): T => b : c;", "x = a ? (b) => b : c;"},
 	{"x = (y: any): (() => {}) => {};", "x = (y) => {};"}, {"x = (y: any): () => {} => {};", "x = (y) => {};"}, {"x = (y: any): (a | b) => {};", "x = (y) => {};"},
 	{"x = (y: any): (y[]) => {};", "x = (y) => {};"}, {"x = (y: any): y is string => true;", "x = (y) => true;"}, {"x = async <T>(y: T): Promise<T> => y;", "x = async (y) => y;"},
 	{"x = <T>(y: T) => y;", "x = (y) => y;"}, {"x = <T,>(y: T) => y;", "x = (y) => y;"}, {"x = <T extends U>(y: T) => y;", "x = (y) => y;"}, {"x = <T>(y);", "x = (y);"}, {"x = <T>y.z;", "x = y.z;"},
 	{"x = <A<B>>y;", "x = y;"}, {"x = < <T>(t: T) => T>y;", "x = y;"}, {"x = y as any as T[];", "x = y;"}, {"x = y satisfies T;", "x = y;"}, {"x = y!;", "x = y;"}, {"x = y!.z![0]!();", "x = y.z[0]();"},
 	{"x = y as const;", "x = y;"}, {"(y as any) = 1;", "y = 1;"}, {"y! = 1;", "y = 1;"}, {"(<any>y) = 1;", "y = 1;"}, {"for (const k of y as T[]) ;", "for (const k of y) ;"},
-	{"let v: T\n[z] = [1];", "let v\n[z] = [1];"}, 
+	{"let v: T\n[z] = [1];", "let v\n[z] = [1];"},
 	{"x = y as T extends U ? V : W;", "x = y;"}, {"x = y as T extends infer U extends string ? U : never;", "x = y;"}, {"x = y as `a${T}b${U}` | `${V}`;", "x = y;"},
 	{"x = y as { a: T; b?: U, [k: string]: V; m(): void; new (): W; readonly [K in keyof T]-?: T[K] };", "x = y;"}, {"x = y as abstract new () => T;", "x = y;"},
 	{"x = y as typeof import('m').a.b<T>;", "x = y;"}, {"x = y as unique symbol | asserts | keyof typeof z | readonly T[] | [a: T, b?: U, ...c: V[]];", "x = y;"},
